@@ -987,6 +987,11 @@ def cases(rng, tier):
                                        "https://username@example.org/path/to/somewhere", "http://u:" + MASK + "@h/",
                                        "http://u:*@h/", "http://ab:b@b/b", "http://u:p@h:0080/", "http://u:p@H/"]:
         yield "url_repr " + enc(url)
+    # a password together with an authority whose port cannot be read (repr must still not show the password)
+    for host in ("h", "example.org", "1.2.3.4", "[::1]"):
+        for port in ("x", "99999", "65536", "-1", "8 0", "\u0663", "1e3", "0x50"):
+            for pw in ("p", "s3cr3t-password", "p@ss"):
+                yield "url_repr " + enc("https://user:%s@%s:%s/" % (pw, host, port))
     # -- URL(**components)
     for kw in ({"scheme": "https", "netloc": "example.org:123", "path": "/path/to/somewhere", "query": "abc=123",
                 "fragment": "anchor"}, {"hostname": "h"}, {"scheme": "http", "hostname": "::1", "port": 80},
